@@ -10,7 +10,7 @@
    any number of transactions / keys (duplicates allowed) / timestamps.  [reach sf ns s]: the same with
    distinct keys in every Lock (what txn.go passes).  held l = the first lacq keys of l (sorted by genLock). *)
 From Coq Require Import NArith List.
-From Verif Require Import Latch.Model Latch.ProofsOps Latch.ProofsBase Latch.ProofsInv Latch.ProofsSys Latch.ProofsLive Latch.ProofsThm.
+From Verif Require Import Latch.Model Latch.ProofsOps Latch.ProofsBase Latch.ProofsInv Latch.ProofsSys Latch.ProofsLive Latch.ProofsRec Latch.ProofsThm.
 Import ListNotations.
 
 (* Exclusive (no hypothesis on the key lists): a lock counts a key as acquired iff the key's node names it as
@@ -111,13 +111,53 @@ Print Assumptions C17_acquire_is_steps.
 (* The recycle rule, as far as the code guarantees it (this is the window left open in C17_stale_complete): recycle(t)
    only drops a node that nobody holds and whose maxCommitTS is >= 2 physical minutes older than t; t is the start ts of
    the acquiring lock (in-line) or the commit ts of a lock just released (spawned). Nothing relates t to the start ts of
-   transactions that are still running: a transaction more than 2 minutes older than t can miss a conflict.
-   (The log-level corollary "a missed release implies such a t had been seen" is not mechanised.) *)
+   transactions that are still running: a transaction more than 2 minutes older than t can miss a conflict
+   (made precise over reachable states by C17_stale_complete_window below). *)
 Theorem C17_recycle_rule : forall sf L sl t k, qwf L -> nodeK sf (recycle_slot L sl t) k <> nodeK sf L k ->
   nodeK sf (recycle_slot L sl t) k = None /\ sf k = sl /\
   exists n, nodeK sf L k = Some n /\ nval n = None /\ (phys (nmax n) + expire_ms <= phys t)%N.
 Proof. exact recycle_rule. Qed.
 Print Assumptions C17_recycle_rule.
+
+(* Stale, complete, WITH the recycle rule in the system (closes the window of C17_stale_complete exactly as far as the
+   code does): a non-stale lock i holding k acquired it (EAcq in the log) such that every earlier release of k with
+   commit c either has c <= start_i, or was forgotten by a later recycle entry ERecycle k cur m with c <= m (the dropped
+   node dominated it) and m at least 2 physical minutes older than the recycler's timestamp cur; hence a conflict is
+   missed (start_i < c) only by a transaction whose start ts is >= 2 physical minutes older than a timestamp that had
+   already been passed to recycle (the start ts of an acquirer or the commit ts of a released lock). Nothing more holds:
+   C17_ex_missed_conflict shows such a miss. *)
+Theorem C17_stale_complete_window : forall sf ns s i k, reach_any sf ns s -> lstale (locks (lat s) i) = false ->
+  In k (held (locks (lat s) i)) ->
+  exists h1 h2, glog (lat s) = h1 ++ EAcq k i :: h2 /\
+    forall j c, In (ERel k j c) h2 ->
+      (c <= lstart (locks (lat s) i))%N \/
+      exists cur m, In (ERecycle k cur m) h2 /\ (c <= m)%N /\ (phys m + expire_ms <= phys cur)%N /\
+                    ((lstart (locks (lat s) i) < c)%N -> (phys (lstart (locks (lat s) i)) + expire_ms <= phys cur)%N).
+Proof. exact stale_complete_window. Qed.
+Print Assumptions C17_stale_complete_window.
+
+(* Recycling (the external one and the in-line one of acquireSlot) never unlinks or alters the node of a key that has a
+   holder: not a node some lock owns, not the node a waiter queues behind while it is held; waiting lists are untouched *)
+Theorem C17_recycle_keeps_refs : forall sf ns s, reach_any sf ns s ->
+  (forall i k sl t, In k (held (locks (lat s) i)) ->
+     nodeK sf (recycle_slot (lat s) sl t) k = nodeK sf (lat s) k /\
+     nodeK sf (maybe_recycle (lat s) sl t) k = nodeK sf (lat s) k) /\
+  (forall w k sl t, In w (waitS (lat s) (sf k)) -> key_at (locks (lat s) w) = Some k -> holderK sf (lat s) k <> None ->
+     nodeK sf (recycle_slot (lat s) sl t) k = nodeK sf (lat s) k /\
+     nodeK sf (maybe_recycle (lat s) sl t) k = nodeK sf (lat s) k) /\
+  (forall sl t w sl', In w (waitS (lat s) sl') -> In w (waitS (recycle_slot (lat s) sl t) sl')).
+Proof. exact recycle_keeps_refs. Qed.
+Print Assumptions C17_recycle_keeps_refs.
+
+(* ... but "recycling never unlinks the node of a key that a WAITER waits for" is false: between releaseSlot (first
+   waiter picked, node left without holder) and that waiter's wake-up, the node can be recycled while a second waiter
+   still queues for the key. Harmless for wake-ups (waiters are found by key, C17_no_lost_wakeup holds across recycle),
+   it only forgets the node's maxCommitTS under the 2-minute rule. Replayed on the code (driver case rw-0). *)
+Theorem C17_recycle_waited_node_refuted :
+  exists sf ns s w k sl t, reach_any sf ns s /\ In w (waitS (lat s) (sf k)) /\ key_at (locks (lat s) w) = Some k /\
+    nodeK sf (lat s) k <> None /\ nodeK sf (recycle_slot (lat s) sl t) k = None.
+Proof. exact recycle_waited_node_refuted. Qed.
+Print Assumptions C17_recycle_waited_node_refuted.
 
 (* The composite release() of latch.go (run()) is the iteration of the atomic steps; it never panics *)
 Theorem C17_release_is_steps : forall sf ns s i L' wl pan, reach_any sf ns s -> sch s = SRel i [] ->
@@ -182,4 +222,21 @@ Example C17_ex_recycle_rule :
   let L := set_slot init_lat 0%N (mkSlot [mkNode 1%N 0%N None; mkNode 2%N 0%N (Some 3); mkNode 4%N (N.shiftl 100000%N 18%N) None] []) in
   let L' := recycle_slot L 0%N (N.shiftl 130000%N 18%N) in
   (holderK sf0 L' 2%N, maxK sf0 L' 4%N, nodeK sf0 L' 1%N, length (squeue (slots L' 0%N))) = (Some 3, N.shiftl 100000%N 18%N, None, 2).
+Proof. vm_compute. reflexivity. Qed.
+
+(* the run of C17_recycle_waited_node_refuted completes: lock 1 re-creates the node, lock 2 is handed over stale by
+   lock 1's commit 7 > 6 and everybody is released *)
+Example C17_ex_waited_completes :
+  option_map (fun s => (pc s 0, pc s 1, pc s 2, lstale (locks (lat s) 2), nodeK sf0 (lat s) 1%N, sch s))
+             (run sf0 1 (tr_waited ++ tr_waited_rest) init_state)
+  = Some (TRel, TRel, TRel, true, Some (mkNode 1%N 7%N None), SIdle).
+Proof. vm_compute. reflexivity. Qed.
+(* the window is real: key 1 released with commit 2u+1, its node recycled at 5u (2u+1 is > 2 min older); a lock with start
+   1u < 2u+1 then acquires key 1 WITHOUT being stale: the conflict is missed, as C17_stale_complete_window allows *)
+Example C17_ex_missed_conflict :
+  let u := 18350080000%N in
+  option_map (fun s => (pc s 1, lstale (locks (lat s) 1), holderK sf0 (lat s) 1%N))
+    (run sf0 1 [LStart 0 [1]%N u; LAcq 0; LUnlock 0 (2 * u + 1)%N; LPop; LRel; LTrig; LRecycle 0%N (5 * u)%N;
+                LStart 1 [1]%N (u + 1)%N; LAcq 1] init_state)
+  = Some (TDone, false, Some 1).
 Proof. vm_compute. reflexivity. Qed.
